@@ -105,6 +105,8 @@ static void run_wfcq(void)
 	probe = vrt_choose(6);
 	vrt_outcome((unsigned long)probe);
 	inflight = others_enqueuing();
+	vrt_sample("wfcq probe %d run solo at step %lu with %d victim(s) inside an operation (%d inside an enqueue/splice)", probe, vrt_now(),
+		   others_in_op(), inflight);
 	switch (probe) {
 	case 0:		/* enqueue: wait-free */
 		vrt_solo_begin("cds_wfcq_enqueue", WF_BOUND);
